@@ -7,7 +7,7 @@ Definition queued (s : est) : list ev := concat (e_pqs s) ++ concat (e_sqs s).
 Definition live_of (s : est) : list ev := pending_ws (e_ws s) ++ queued s.
 
 Definition idle_pc (pc : epc) : bool :=
-  match pc with ECheck | EDetermine | EEmpty _ | EDone => true | _ => false end.
+  match pc with ECheck | ELock | EDetermine | EEmpty _ | EUnlock | EDone => true | _ => false end.
 
 Lemma mono_from_weaken hi hi' l : hi <= hi' -> mono_from hi l = true -> mono_from hi' l = true.
 Proof.
@@ -71,7 +71,7 @@ Section Inv.
     i_max : e_now s <= max_time
   }.
 
-  Ltac efields := cbn [e_pc e_nq e_now e_sec e_pqs e_sqs e_pch e_sch e_ws e_panic e_sched e_handled e_trace e_rounds set_pc set_panic] in *.
+  Ltac efields := cbn [e_pc e_nq e_now e_sec e_pqs e_sqs e_pch e_sch e_ws e_panic e_sched e_handled e_trace e_rounds e_ext set_pc set_panic set_ext x_plock x_script x_cheld x_late] in *.
 
   Ltac inv_some :=
     repeat match goal with
@@ -83,14 +83,17 @@ Section Inv.
   Proof. intros H Hin. rewrite Forall_forall in H. auto. Qed.
 
   (** engine steps *)
-  Lemma Inv_engine s s' : Inv s -> step_engine s = Some s' -> Inv s'.
+  Lemma Inv_engine s s' : Inv s -> step_engine false s = Some s' -> Inv s'.
   Proof.
     intros [Hpan Hlp Hls Hpch Hsch Hsp Hss Hkp Hks Hge Hws Hidle [live [open [Hacc [Hlive Hopen]]]] Hcons Hmono Hmax] Hstep.
-    destruct s as [pc nq now sec pqs sqs pch sch ws panic schd handled trace rounds].
+    destruct s as [pc nq now sec pqs sqs pch sch ws panic schd handled trace rounds ext].
     unfold step_engine in Hstep. efields. unfold queued, live_of in *. efields.
     destruct pc.
     - (* ECheck *)
       destruct (all_empty pqs && all_empty sqs); inv_some; constructor; efields; unfold queued, live_of; efields; auto;
+        exists live, open; auto.
+    - (* ELock *)
+      destruct (x_plock ext); inv_some; constructor; efields; unfold queued, live_of; efields; auto;
         exists live, open; auto.
     - (* EDetermine *)
       specialize (Hidle eq_refl). subst ws.
@@ -183,6 +186,8 @@ Section Inv.
       destruct (all_finished ws) eqn:Ef; inv_some.
       destruct (all_finished_pending ws Ef) as [Hp Ho]. rewrite Hp in *. rewrite Ho in *.
       constructor; efields; unfold queued, live_of; efields; auto. exists live, open; auto.
+    - (* EUnlock *)
+      inv_some; constructor; efields; unfold queued, live_of; efields; auto; exists live, open; auto.
     - discriminate.
   Qed.
 
@@ -209,7 +214,7 @@ Section Inv.
   Lemma Inv_worker i s s' : Inv s -> step_worker prog i s = Some s' -> Inv s'.
   Proof.
     intros [Hpan Hlp Hls Hpch Hsch Hsp Hss Hkp Hks Hge Hws Hidle [live [open [Hacc [Hlive Hopen]]]] Hcons Hmono Hmax] Hstep.
-    destruct s as [pc nq now sec pqs sqs pch sch ws panic schd handled trace rounds].
+    destruct s as [pc nq now sec pqs sqs pch sch ws panic schd handled trace rounds ext].
     unfold step_worker in Hstep. efields. unfold live_of, queued in *. efields.
     destruct (nth_error ws i) as [[e st]|] eqn:En; [|discriminate].
     assert (Hpc : idle_pc pc = false).
@@ -343,9 +348,4 @@ Section Inv.
     - discriminate.
   Qed.
 
-  Lemma Inv_step : inductive (step prog) Inv.
-  Proof.
-    intros t s s' HI Hstep. unfold step in Hstep. rewrite (i_panic s HI) in Hstep.
-    destruct t; [eapply Inv_engine|eapply Inv_worker]; eauto.
-  Qed.
 End Inv.
